@@ -479,8 +479,27 @@ func run(pl Plan) (res vfx.Result) {
 	}
 	if changed {
 		labels["merged"] = true
+		// whatever was merged, the node's table must still be one that honest peers can exchange state with: a
+		// peer speaking exactly the node's own versions is admitted by the next anti-entropy round (the held
+		// members and the accepted rows passed the version rule above, so nothing legitimate stands in the way)
+		cv := conf.Vsn()
+		_, err := p.PushPullTo(p.Obs, false, []wire.PushNodeState{{Name: "canary", Addr: []byte{10, 0, 7, 7}, Port: 7946, Incarnation: 1, State: wire.StateAlive, Vsn: cv}}, nil, false)
+		p.Settle()
+		if !contains(p.MemberNames(), "canary") {
+			d, _ := p.Dump()
+			return fail("after the accepted exchange (%d rows) the node refuses an honest anti-entropy exchange with a peer speaking its own versions %v (reply error %v): its table no longer verifies\n  table %v\n  log tail %v", len(rows), cv, err, d, tailLog(p, 6))
+		}
+		labels["canary-admitted"] = true
 	}
 	return done()
+}
+
+func tailLog(p *puppet.Puppet, n int) []string {
+	l := p.Log.Snapshot()
+	if len(l) > n {
+		l = l[len(l)-n:]
+	}
+	return l
 }
 
 func contains(s []string, x string) bool {
